@@ -184,7 +184,10 @@ fn graph_case(item: u64, rng: &mut Rng, acc: &mut Acc, quick: bool) {
                 acc.count("normalisation_checked");
             }
             if !rf.is_empty() {
-                acc.violate(item, "rescaling", "sector:rescaling", detail(json!({"unrescaled": fjv(&lg.x_unscaled), "rescaled": fjv(&lg.x), "failures": rf})));
+                // an intermediate (u_trop, u_trop*v_trop or target) outside the normal f64 range
+                // spoils the scaling: same root cause as the non-finite case (known finding F7)
+                let sigk = if intermediate_out_of_range { "sector:target_overflow" } else { "sector:rescaling" };
+                acc.violate(item, "rescaling", sigk, detail(json!({"unrescaled": fjv(&lg.x_unscaled), "rescaled": fjv(&lg.x), "failures": rf})));
                 continue;
             }
             if acc.samples.is_empty() {
